@@ -202,6 +202,16 @@ reg(
     "DESIGN.md 5/C20",
 )
 
+reg(
+    "C19",
+    "explicit-state BFS over operation histories of the real IndexClassifierWrapper (states rebuilt by replay, merged on the bookkeeping fingerprint) for all flag combinations; reference multiset / chunk-sequence model with an independently retrained fresh classifier compared in every state; speed-up on/off differential",
+    "All histories up to the depth bound over fit / partial_fit with index sets, label overrides and base-model flags are executed; in "
+    "every reachable state the wrapper's predictions are compared with a fresh clone trained on the implied multiset of "
+    "(sample, label, weight) triples, NotFittedError behaviour with the model, and use_speed_up with its absence.",
+    "4 samples, index-set menu of size <= 2, depth 2 (quick) / 3 (thorough); ParzenWindowClassifier and SklearnClassifier(GaussianNB) as wrapped classifiers.",
+    "DESIGN.md 5/C19",
+)
+
 
 def main():
     props = [json.loads(l) for l in open(os.path.join(HOME, "properties.jsonl"))]
